@@ -705,13 +705,13 @@ func checkNonceSurvivesReload(c *Ctx, rule string) {
 					// a whole group of fields swapped in at once (an embedded struct): the map it carries
 					if sty, isStruct := st.Val.Type().Underlying().(*types.Struct); isStruct {
 						for i := 0; i < sty.NumFields(); i++ {
-							if m2, isMap := sty.Field(i).Type().Underlying().(*types.Map); isMap && namedName(m2.Elem()) == "HMACAuth" {
+							if m2, isMap := sty.Field(i).Type().Underlying().(*types.Map); isMap && (namedName(m2.Elem()) == "HMACAuth" || recordHoldsHMAC(m2.Elem())) {
 								mt, ok, f = m2, true, sty.Field(i).Name()
 							}
 						}
 					}
 				}
-				if !ok || namedName(mt.Elem()) != "HMACAuth" {
+				if !ok || (namedName(mt.Elem()) != "HMACAuth" && !recordHoldsHMAC(mt.Elem())) {
 					continue
 				}
 				n++
@@ -733,7 +733,11 @@ func checkNonceSurvivesReload(c *Ctx, rule string) {
 								_ = lk
 							}
 						}
-						if lk, ok := a.(*ssa.Lookup); ok {
+						av := a
+						if fl, isField := av.(*ssa.Field); isField {
+							av = fl.X // the authenticator member of a per-route record looked up in the running table
+						}
+						if lk, ok := av.(*ssa.Lookup); ok {
 							if root, ff, ok := fieldPathRootOfLoad(lk.X); ok && root == "runtimeState" && ff == f {
 								okCall = true
 							}
@@ -748,6 +752,20 @@ func checkNonceSurvivesReload(c *Ctx, rule string) {
 		}
 	}
 	c.Floor(rule, "authenticator_installations_on_reload_path", n, 1)
+}
+
+// recordHoldsHMAC: a per-route record (a struct of package app) with an authenticator member.
+func recordHoldsHMAC(t types.Type) bool {
+	st, ok := t.Underlying().(*types.Struct)
+	if !ok {
+		return false
+	}
+	for i := 0; i < st.NumFields(); i++ {
+		if _, isPtr := st.Field(i).Type().Underlying().(*types.Pointer); isPtr && namedName(st.Field(i).Type()) == "HMACAuth" {
+			return true
+		}
+	}
+	return false
 }
 
 // sameMapEntry: exp is the value of the range/lookup entry whose key is key (same Next tuple or same lookup index).
